@@ -17,6 +17,9 @@ import Driver.Util
       cf= ef= ct= et= cu= eu= cl= cR= eR= cM= eM= ce= ee=       (texts per setting: c* command line, e* environment)
       wt=HEX,.. wu=HEX,.. wm=0|1    (per-host transports / users given as prefixes of -w words; a malformed prefix)
       obs=rej:<diag>  |  obs=hang  |  obs=acc:<fanout>:<ctmo>:<utmo>:<ruser>:<rcmd>:<path>   [mw=HEX]
+      [uown=HEX] uobs=HEX          (a target that names the user `uown` itself was contacted as `uobs`)
+      peak=N                       (N commands were seen running at the same time; more targets than the fanout allows)
+      cut=0|1 short=N long=N       (a command running between `short` and `long` seconds was / was not cut short)
         -> "ok" | space-separated violated clauses
 -/
 namespace Driver.OptDrv
@@ -121,10 +124,20 @@ def stepSpec (line : String) : String :=
     let m := match kvHex ws "mw" with
       | some w => Spec.judgeMisc cfg w
       | none => []
+    -- the settings where they take effect
+    let u := match kvHex ws "uobs" with
+      | some o => Spec.judgeUser cfg (kvHex ws "uown") o
+      | none => []
+    let fu := match (kv ws "peak").bind String.toInt? with
+      | some pk => Spec.judgeFanoutUsed cfg pk
+      | none => []
+    let tu := match (kv ws "cut"), (kv ws "short").bind String.toInt?, (kv ws "long").bind String.toInt? with
+      | some ct, some sh, some lg => Spec.judgeTimeoutUsed cfg sh lg (ct = "1")
+      | _, _, _ => []
     match a, kv ws "obs" with
     | none, some _ => "bad-op"
     | _, _ =>
-      let all := a.getD [] ++ m
+      let all := a.getD [] ++ m ++ u ++ fu ++ tu
       if all = [] then "ok" else " ".intercalate all
   | _, _ => "bad-op"
 
